@@ -50,7 +50,7 @@ VIX = "dask_array.slicing._vindex"
 ARG = "dask_array.creation._arange"
 DB = "dask.blockwise"
 MT = "dask_array._materialize"
-MODS = [MT, "dask_array.core._blockwise_funcs", "dask_array.core._conversion", EX, BW, CU, RC, FA, IOB, SB, SU, "dask_array.slicing", CO, NC, TR, XP, SQ, BT, CC, SK, RD, RCM, SHF, VIX, ARG, "dask_array._overlap", "dask_array._map_blocks", "dask_array._chunk", "dask.layers", "dask_array.reductions._sliding_window", "dask_array.manipulation._reshape", "dask_array.reductions._arg_reduction", "dask_array.creation._diag", "dask_array.creation._diagonal", DB]
+MODS = [MT, "dask_array.core._blockwise_funcs", "dask_array.core._conversion", EX, BW, CU, RC, FA, IOB, SB, SU, "dask_array.slicing", CO, NC, TR, XP, SQ, BT, CC, SK, RD, RCM, SHF, VIX, ARG, "dask_array._overlap", "dask_array._map_blocks", "dask_array._chunk", "dask.layers", "dask_array.reductions._sliding_window", "dask_array.manipulation._reshape", "dask_array.reductions._arg_reduction", "dask_array.creation._diag", "dask_array.creation._diagonal", "dask_array.routines._unique", "dask_array.creation._ones_zeros", "dask_array.creation._utils", DB]
 STUBS = SHIM_LIST + [
     "expression classes -> symx.nodes (real methods on cloned code; constructors/tokenize bypassed, structural names); the "
     "Array collection class -> subclass with cloned methods",
@@ -253,9 +253,24 @@ def scaled(x, factor=1.0):
 scaled.__symx_kernel__ = True
 
 
-def p_elemwise(w, op, *ps, _dtype=None, **user_kwargs):
+def p_elemwise(w, op, *ps, _dtype=None, _where=None, _out=None, **user_kwargs):
+    """_where / _out: Progs for ufunc(where=mask, out=o) -- the result is where(mask != 0, op(...), o)"""
     import dask_array._blockwise as M
 
+    if _where is not None:
+        ps = tuple(ps)
+        node = w.space.make(M.Elemwise, op, _dtype, None, _where.node, _out.node, dict(user_kwargs) or None,
+                            *[q.node if isinstance(q, Prog) else q for q in ps])
+        refs = [q.ref if isinstance(q, Prog) else q for q in ps]
+        val = op(*refs, **user_kwargs)
+        shape = node.shape
+        vb, mb, ob = val.broadcast_to(shape), _where.ref.broadcast_to(shape), _out.ref.broadcast_to(shape)
+        ref = SArr(shape, lambda idx: z3.If(mb._at(idx) != 0, vb._at(idx), ob._at(idx)))
+        dsk = {}
+        for q in ps + (_where, _out):
+            if isinstance(q, Prog):
+                dsk.update(q.dsk)
+        return Prog(node, ref, dsk)
     node = w.space.make(M.Elemwise, op, _dtype, None, True, None, dict(user_kwargs) or None, *[q.node if isinstance(q, Prog) else q for q in ps])
     refs = [q.ref if isinstance(q, Prog) else q for q in ps]
     ref = op(*refs, **user_kwargs)
@@ -656,6 +671,9 @@ def programs(tier):
     reg("add(x2x2,y2x2,dtype=f4).T", lambda w, E: p_transpose(w, _add_dtype(w, E, (2, 2)), (1, 0)), 2)
     reg("add(x2,y2,dtype=f4)[a:b]", lambda w, E: p_slice(w, _add_dtype(w, E, (2,)), raw_index(E, (F,))), 3)
     reg("rechunk(add(x2,y2,dtype=f4))", lambda w, E: _rechunk_over(w, E, _add_dtype(w, E, (2,)), (3,)), 4)
+    reg("add(x2,y2,where=m3(own chunks),out=o2)", lambda w, E: _add_where_out(w, E, (2,), (3,)), 6)
+    reg("add(x2x2+1,y2x2,where=m2(1-d),out=o2x2)", lambda w, E: _add_where_out(w, E, (2, 2), (2,), mask_axes=(1,), pre=True), 6)
+    reg("concatenate([rechunk(rechunk(x40)[0:10]),rechunk(rechunk(x40)[20:30])]) (same layout, two regions)", lambda w, E: _two_windows(w, E), 4)
     reg("rechunk(x2+y2)", lambda w, E: _rechunk_over(w, E, _add_aligned(w, E, (2,)), (3,)), 4)
     reg("rechunk(concatenate([x2,y2],0))", lambda w, E: _rechunk_over(w, E, p_concat(w, [source(w, E, "x", (2,)), source(w, E, "y", (2,))], 0), (3,)), 6)
     reg("rechunk(concatenate([x2x2,y2x1],1),axis0)", lambda w, E: _rechunk_over(w, E, _concat_axis1(w, E), (1, None)), 5)
@@ -701,6 +719,38 @@ def _rechunk_over(w, E, p, new_blocks, tag="r"):
 def _square(w, E, m):
     x = source(w, E, "x", (m,))
     return source(w, E, "x", (m, m), chunks=[x.node.chunks[0], x.node.chunks[0]])
+
+
+def _add_where_out(w, E, blocks, mask_blocks, mask_axes=None, pre=False):
+    """np.add(x, y, where=mask, out=o): the mask has its own chunking (and possibly fewer dimensions); pre: x is x0 + 1 (a
+    fusable neighbour)"""
+    x = source(w, E, "x", blocks)
+    y = source(w, E, "y", blocks, chunks=x.node.chunks)
+    o = source(w, E, "o", blocks, chunks=x.node.chunks)
+    if mask_axes is None:
+        m = source(w, E, "m", mask_blocks, shape=[sum(c) for c in x.node.chunks])
+    else:
+        m = source(w, E, "m", mask_blocks, shape=[sum(x.node.chunks[a]) for a in mask_axes])
+    if pre:
+        x = p_elemwise(w, plus_one_ufunc, x)
+    return p_elemwise(w, np.add, x, y, _where=m, _out=o)
+
+
+def plus_one_ufunc(a):
+    return a + 1
+
+
+plus_one_ufunc.__symx_kernel__ = True
+
+
+def _two_windows(w, E):
+    """two windows of the same layout cut from one rechunked source, each rechunked again, in one graph (concrete sizes: the
+    two reads differ only in their region, so their names must too)"""
+    x = source(w, E, "x", (4,), chunks=[(10, 10, 10, 10)])
+    y = p_rechunk(w, x, ((5,) * 8,))
+    w1 = p_rechunk(w, p_slice(w, y, (slice(0, 10),)), ((2,) * 5,))
+    w2 = p_rechunk(w, p_slice(w, y, (slice(20, 30),)), ((2,) * 5,))
+    return p_concat(w, [w1, w2], 0)
 
 
 def _add_dtype(w, E, blocks):
